@@ -215,6 +215,10 @@ pub struct Plan {
     /// this many descriptors (below the harness's own) are open already - RLIMIT_NOFILE as a fault
     /// that comes and goes with the depth of the library's own recursion
     pub fd_cap: Option<usize>,
+    /// every readlink of a descriptor's path (/proc/<pid>/fd/<n>) whose object currently lives in
+    /// the world but outside the root fails with ENAMETOOLONG: "whatever the attacker moves out of
+    /// the root ends up nested deeper than PATH_MAX" (the kernel renders such paths into one page)
+    pub outside_too_long: bool,
 }
 
 impl Plan {
@@ -228,6 +232,7 @@ impl Plan {
             "dup_entropy": self.dup_entropy,
             "seed_entropy": self.seed_entropy,
             "fd_cap": self.fd_cap,
+            "outside_too_long": self.outside_too_long,
         })
     }
     pub fn from_json(v: &Value) -> Plan {
@@ -248,6 +253,7 @@ impl Plan {
             dup_entropy: v.get("dup_entropy").and_then(|x| x.as_bool()).unwrap_or(false),
             seed_entropy: v.get("seed_entropy").and_then(|x| x.as_str()).map(|s| s.to_string()),
             fd_cap: v.get("fd_cap").and_then(|x| x.as_u64()).map(|x| x as usize),
+            outside_too_long: v.get("outside_too_long").and_then(|x| x.as_bool()).unwrap_or(false),
         }
     }
 }
@@ -1410,6 +1416,27 @@ impl Universe {
                     let applies = if e == libc::EMFILE || e == libc::ENFILE { is_fd_creating(nr, &n.data.args) } else { nr != libc::SYS_getrandom && fault_catalogue(nr).iter().any(|f| matches!(f, Fault::Errno(x) if *x == e)) };
                     if step >= from && applies {
                         fault = Some(Fault::Errno(e));
+                    }
+                }
+                if input.plan.outside_too_long && (nr == libc::SYS_readlinkat || nr == libc::SYS_readlink) {
+                    // what does the link being read lead to? (the caller's descriptor table is ours)
+                    let target = if nr == libc::SYS_readlinkat {
+                        let p = ev.path.clone().unwrap_or_default();
+                        if p.is_empty() { sys::readlinkat(n.data.args[0] as i32, b"").ok() } else { None }
+                    } else {
+                        let p = String::from_utf8_lossy(&ev.path.clone().unwrap_or_default()).into_owned();
+                        let tid = self.workers[t].tid;
+                        let p = p.replace("/proc/thread-self/", &format!("/proc/self/task/{tid}/"));
+                        if p.starts_with("/proc/self/") { sys::readlinkat(libc::AT_FDCWD, p.as_bytes()).ok() } else { None }
+                    };
+                    if let Some(tg) = target {
+                        let top = crate::world::TOP.as_bytes();
+                        let inside = [top, b"/root"].concat();
+                        let in_world = tg.starts_with(top) && tg.get(top.len()) == Some(&b'/');
+                        let in_root = tg == inside || (tg.starts_with(&inside) && tg.get(inside.len()) == Some(&b'/'));
+                        if in_world && !in_root {
+                            fault = Some(Fault::Errno(libc::ENAMETOOLONG));
+                        }
                     }
                 }
                 if let Some(cap) = input.plan.fd_cap {
